@@ -167,10 +167,36 @@ def deep_copy(o):
     return o
 
 
+def aliased_copy(desc):
+    """A copy of the description in which structurally equal mappings / lists are ONE object — what a YAML loader returns for an
+    anchor and its aliases (`suit-install: &d {...}`, `suit-text: *d`).  Chosen by the content, so that a replay makes the same choice:
+    about half of the descriptions are aliased."""
+    import zlib
+    canon = {}
+
+    def key(o):
+        return json.dumps(o, sort_keys=True, default=repr)
+
+    if zlib.crc32(key(desc).encode()) % 2:
+        return deep_copy(desc)
+
+    def walk(o):
+        if isinstance(o, dict):
+            o = {k: walk(v) for k, v in o.items()}
+        elif isinstance(o, list):
+            o = [walk(v) for v in o]
+        else:
+            return o
+        if not o:
+            return o
+        return canon.setdefault((type(o).__name__, key(o)), o)
+    return walk(desc)
+
+
 def impl_create(desc):
     from suit_generator.input_output import InputOutputMixin
     fast_logger()
-    return InputOutputMixin.prepare_suit_data(deep_copy(desc))
+    return InputOutputMixin.prepare_suit_data(aliased_copy(desc))
 
 
 def impl_parse(cls, data):
